@@ -86,7 +86,7 @@ def register_adapter(R):
         modifies=["self.__write_flow._WriteFlowControl__write_paused", "self.__write_flow._WriteFlowControl__connection_lost",
                   "self.__write_flow._WriteFlowControl__connection_lost_exception", "self.__write_flow._WriteFlowControl__connection_lost_exception_tb",
                   "self.__write_flow._WriteFlowControl__drain_waiters.n", "self.__write_flow._WriteFlowControl__drain_waiters.pending",
-                  "self.__write_flow._WriteFlowControl__drain_waiters.rest", "ghost.drained_since_write"],
+                  "self.__write_flow._WriteFlowControl__drain_waiters.rest", "ghost.drained_since_write", "ghost.futures_awaited"],
         tags="C20",
     )
     R.shape("AsyncioTransportStreamSocketAdapter", cls="AsyncioTransportStreamSocketAdapter",
@@ -100,7 +100,7 @@ def register_adapter(R):
         ensures=[("bytes-handed-over-once-in-order", "ghost.TBUF == old(ghost.TBUF) + data", "C04 C20"),
                  ("returns-only-after-drain-returned (backpressure)", "ghost.drained_since_write", "C20")],
         raises={"BaseException": [("bytes-handed-over-at-most-once", "ghost.TBUF == old(ghost.TBUF) + data", "C04")]},
-        modifies=["ghost.TBUF", "ghost.drained_since_write"] + pmods,
+        modifies=["ghost.TBUF", "ghost.drained_since_write", "ghost.futures_awaited"] + pmods,
         tags="C04 C20",
     )
     R.contract(
@@ -109,6 +109,6 @@ def register_adapter(R):
         ensures=[("bytes-handed-over-once-in-order", "ghost.TBUF == old(ghost.TBUF) + flat(iterable_of_data)", "C04 C20"),
                  ("returns-only-after-drain-returned (backpressure)", "ghost.drained_since_write", "C20")],
         raises={"BaseException": [("bytes-handed-over-at-most-once", "ghost.TBUF == old(ghost.TBUF) + flat(iterable_of_data)", "C04")]},
-        modifies=["ghost.TBUF", "ghost.drained_since_write"] + pmods,
+        modifies=["ghost.TBUF", "ghost.drained_since_write", "ghost.futures_awaited"] + pmods,
         tags="C04 C20",
     )
